@@ -361,6 +361,26 @@ def _shape_models() -> List[Tuple[str, str]]:
             + cls("Holder", None, [], [("nothing", "Abstract_nothing"), ("code", "Code"), ("codes", "Optional[List[Hardly_something]]")]),
         )
     )
+    # Integer constants and set literals at the edges of the targets' integer types: above int32 (Java needs the ``L``
+    # suffix), the largest int64, and -- in models of their own, since a target may refuse them -- above int64 and
+    # above uint64 (no integer literal of C# / Java denotes them)
+    def ints(name: str, values: Sequence[int]) -> str:
+        return f'{name}: Set[int] = constant_set(\n    values=[{", ".join(str(v) for v in values)}],\n    description="Some integers.",\n)\n\n\n'
+
+    def one(name: str, value: int) -> str:
+        return f'{name}: int = constant_int(\n    value={value},\n    description="Some integer.",\n)\n\n\n'
+
+    holder = cls("Holder", None, [], [("amount", "int")])
+    r.append(
+        (
+            "integer-constants-in-int64",
+            _MODEL_HEADER + one("Small_one", 5) + one("Above_int32", 3000000000) + one("Largest_int64", 2**63 - 1)
+            + ints("Some_ints", [0, 7, 2147483648, 2**63 - 1]) + holder,
+        )
+    )
+    r.append(("integer-constant-above-int64", _MODEL_HEADER + one("Above_int64", 2**63) + holder))
+    r.append(("integer-constant-above-uint64", _MODEL_HEADER + one("Above_uint64", 2**64) + holder))
+    r.append(("integer-set-literal-above-uint64", _MODEL_HEADER + ints("Big_ints", [1, 2**64]) + holder))
     return r
 
 
@@ -883,6 +903,35 @@ def balance(
 
 # ---------------------------------------------------------------------------------------
 # Further specific judges
+
+_QUOTED_RE = re.compile(r'"(?:\\.|[^"\\])*"|\'(?:\\.|[^\'\\])*\'')
+_DEC_LITERAL_RE = re.compile(r"(?<![\w.$])([0-9][0-9_]*)([lLuU]{0,2})(?![\w.$])")
+
+
+def integer_literal_problems(lang: str, skeleton: str) -> List[str]:
+    """Decimal integer literals of the code (comments and quoted literals removed) which the lexical grammar of the
+    language has no type for -- a compile-time error at the token level:
+
+    * Java (JLS 3.10.1): without suffix at most 2147483648, with ``L`` at most 9223372036854775808 (the largest values
+      only as the operand of the unary minus, which we do not track: we allow them);
+    * C# (ECMA-334 6.4.5.3): the type is the first of int, uint, long, ulong which holds the value; a value above
+      18446744073709551615 is error CS1021.
+    """
+    if lang not in ("java", "cs"):
+        return []
+    code = _QUOTED_RE.sub('""', skeleton)
+    out: List[str] = []
+    for m in _DEC_LITERAL_RE.finditer(code):
+        digits, suffix = m.group(1).replace("_", ""), m.group(2).lower()
+        value = int(digits)
+        if lang == "java":
+            limit = 2**63 if "l" in suffix else 2**31
+            if "u" in suffix or value > limit:
+                out.append("integer number too large (or ill-suffixed): %s" % m.group(0))
+        else:
+            if value > 2**64 - 1:
+                out.append("integral constant is too large: %s" % m.group(0))
+    return out
 # ---------------------------------------------------------------------------------------
 
 
@@ -1110,6 +1159,8 @@ def _judge_file(
             else:
                 sig = "C20:file:%s:balance:%s" % (_SIG_LANG[lang], kind)
             add(sig, "line %d: %s" % (line, detail))
+        for detail in integer_literal_problems(lang, info["skeleton"])[:1]:
+            add("C20:file:%s:integer-literal" % _SIG_LANG[lang], detail)
         if lang == "cs":
             for line, detail in csharp_doc_comment_problems(text)[:1]:
                 add("C20:file:csharp:doc-xml", "doc comment starting at line %d: %s" % (line, detail))
